@@ -25,6 +25,7 @@ type EngObs struct {
 	Mem     [][2]uint32 `json:"mem"`
 	Pages   uint32      `json:"pages"`
 	Closed  bool        `json:"closed"`
+	ClosedAt int        `json:"closed_at"` // index of the call after which the module was first seen closed, -1 if never
 	Other   []c.CallObs `json:"other"` // a second, untouched instance called after the history
 	Err     string      `json:"err,omitempty"`
 }
@@ -41,7 +42,27 @@ type Case struct {
 
 type myPanic struct{ v uint64 }
 
+// helperWasm: (import "xenv" "quit" (func (param i32))) (func (export "quit") (param i32) local.get 0 call 0)
+var helperWasm = (&c.Mod{
+	Types:   [][]byte{c.FT([]byte{c.I32}, nil)},
+	Imports: [][]byte{c.ImportFunc("xenv", "quit", 0)},
+	Funcs:   [][]byte{c.U32(0)},
+	Exports: [][]byte{c.Export("quit", 0, 1)},
+	Codes:   [][]byte{c.Code(nil, c.LocalGet(0), c.Call(0))},
+}).Bytes()
+
 func env(ctx context.Context, r wazero.Runtime, m *c.ModSpec, log *c.HostLog, reent string) error {
+	// "xenv".quit closes the module that called it (the helper) and panics with the exit error, like proc_exit
+	if _, err := r.NewHostModuleBuilder("xenv").NewFunctionBuilder().WithGoModuleFunction(api.GoModuleFunc(func(ctx context.Context, mod api.Module, stack []uint64) {
+		_ = mod.CloseWithExitCode(ctx, uint32(stack[0]))
+		panic(sys.NewExitError(uint32(stack[0])))
+	}), []api.ValueType{api.ValueTypeI32}, nil).Export("quit").Instantiate(ctx); err != nil {
+		return err
+	}
+	helper, err := r.CompileModule(ctx, helperWasm)
+	if err != nil {
+		return err
+	}
 	b := r.NewHostModuleBuilder("env")
 	for i, h := range m.Hosts {
 		h := h
@@ -71,6 +92,18 @@ func env(ctx context.Context, r wazero.Runtime, m *c.ModSpec, log *c.HostLog, re
 					_ = mod.CloseWithExitCode(ctx, uint32(args[0]))
 					panic(sys.NewExitError(uint32(args[0])))
 				}
+			case 13:
+				if args[0]%4 == 0 { // a fresh nested instance exits; its error is propagated, the caller stays open
+					hm, err := r.InstantiateModule(ctx, helper, wazero.NewModuleConfig().WithName(""))
+					if err != nil {
+						panic(err)
+					}
+					_, err = hm.ExportedFunction("quit").Call(ctx, args[0])
+					if err == nil {
+						panic("helper did not exit")
+					}
+					panic(err)
+				}
 			case 12:
 				res, err := mod.ExportedFunction(reent).Call(ctx, args[0])
 				if err != nil {
@@ -82,7 +115,7 @@ func env(ctx context.Context, r wazero.Runtime, m *c.ModSpec, log *c.HostLog, re
 			}
 		}), vts(h.Sig.P), vts(h.Sig.R)).Export(fmt.Sprintf("h%d", i))
 	}
-	_, err := b.Instantiate(ctx)
+	_, err = b.Instantiate(ctx)
 	return err
 }
 
@@ -144,7 +177,8 @@ func runOn(engine string, m *c.ModSpec, bin []byte, calls [][]uint64, reent stri
 		return
 	}
 	fns := map[int]api.Function{} // the same function objects are reused across failures
-	for _, cl := range calls {
+	eo.ClosedAt = -1
+	for ci, cl := range calls {
 		fi := int(cl[0])
 		f, ok := fns[fi]
 		if !ok {
@@ -156,6 +190,9 @@ func runOn(engine string, m *c.ModSpec, bin []byte, calls [][]uint64, reent stri
 			eo.Obs = append(eo.Obs, c.CallObs{Trap: classify(err)})
 		} else {
 			eo.Obs = append(eo.Obs, c.CallObs{Res: c.MaskRes(res, m.FuncSig(fi).R)})
+		}
+		if eo.ClosedAt < 0 && mod.IsClosed() {
+			eo.ClosedAt = ci
 		}
 	}
 	eo.HLog = log.Events
@@ -200,7 +237,7 @@ func main() {
 	reents := make([]string, *n)
 	for i := 0; i < *n; i++ {
 		g := &c.Gen{R: rng, OOBRate: 1 + rng.Intn(2), TrapRate: 3 + rng.Intn(6)}
-		g.ExtraHosts = []c.HostSpec{{H: 10, Sig: c.Sig{P: []byte{c.I32}}}, {H: 11, Sig: c.Sig{P: []byte{c.I32}}}, {H: 12, Sig: c.Sig{P: []byte{c.I32}, R: []byte{c.I32}}}}
+		g.ExtraHosts = []c.HostSpec{{H: 10, Sig: c.Sig{P: []byte{c.I32}}}, {H: 11, Sig: c.Sig{P: []byte{c.I32}}}, {H: 12, Sig: c.Sig{P: []byte{c.I32}, R: []byte{c.I32}}}, {H: 13, Sig: c.Sig{P: []byte{c.I32}}}}
 		m := g.Program(2 + rng.Intn(4))
 		nh := len(m.Hosts)
 		// appended by hand: reent (called back by host 12) and rec (unbounded recursion)
@@ -225,6 +262,17 @@ func main() {
 			m.IIf(nil, []byte{c.I32}, []c.Ins{c.IConst(c.I32, 0)},
 				[]c.Ins{c.ILocalGet(0), c.IConst(c.I32, 1), c.IBin(c.I32, 1), c.ICall(recIdx), c.IConst(c.I32, 1), c.IBin(c.I32, 0)})}
 		m.Funcs = append(m.Funcs, rec)
+		// fx(x) = if x != 0 { h13(x) }; return x + 1: fails with a propagated exit for multiples of 4, otherwise never leaves native code
+		fxIdx := nh + len(m.Funcs)
+		h13 := -1
+		for hi, h := range m.Hosts {
+			if h.H == 13 {
+				h13 = hi
+			}
+		}
+		fx := &c.FuncSpec{Sig: c.Sig{P: []byte{c.I32}, R: []byte{c.I32}}}
+		fx.Body = []c.Ins{c.ILocalGet(0), m.IIf(nil, nil, []c.Ins{c.ILocalGet(0), c.ICall(h13)}, nil), c.ILocalGet(0), c.IConst(c.I32, 1), c.IBin(c.I32, 0)}
+		m.Funcs = append(m.Funcs, fx)
 		bin := m.Encode()
 		var calls [][]uint64
 		for k := 4 + rng.Intn(6); k > 0; k-- {
@@ -233,6 +281,10 @@ func main() {
 				fi = recIdx
 			}
 			cl := []uint64{uint64(fi)}
+			if rng.Intn(5) == 0 {
+				calls = append(calls, []uint64{uint64(fxIdx), rng.Pick([]uint64{0, 0, 0, 4, 8, 12, 1, 3})})
+				continue
+			}
 			if fi == recIdx {
 				// small depths succeed, huge ones overflow on both engines and in the model (nothing in between)
 				calls = append(calls, []uint64{uint64(fi), rng.Pick([]uint64{0, 1, 5, 33, 60, 0x7fffffff, 50000000, 0x7fffffff})})
@@ -247,7 +299,7 @@ func main() {
 			}
 			calls = append(calls, cl)
 		}
-		hres := make([][]int, 13)
+		hres := make([][]int, 14)
 		for j := range hres {
 			hres[j] = []int{}
 		}
